@@ -2242,9 +2242,12 @@ impl Lexer<'_> {
                 if is_valid_unicode_sas_name_start(c) || (!first_token && is_xid_continue(c)) {
                     // A macro string in place of macro identifier
                     // First checkpoint BEFORE consuming! See above why.
-                    // If we do not have a bug, it may not be set yet, so this call
-                    // is safe.
-                    self.checkpoint();
+                    // It may already be set by a preceding macro string portion
+                    // when only a macro comment separates the two (`a%*c;b`). Then
+                    // we keep the earlier one, as a rollback has to re-lex both.
+                    if self.checkpoint.is_none() {
+                        self.checkpoint();
+                    }
 
                     // Consume as identifier, no reserved words here,
                     // so we do not need the full lex_identifier logic
